@@ -198,3 +198,22 @@ PROPS["C15"] = {
         {"name": "TestProp_C15_Matrix", "kind": "plain", "quick": {"shards": 8, "timeout": 500}, "thorough": {"shards": 16, "timeout": 3000}},
     ],
 }
+
+PROPS["C13"] = {
+    "level": "exploration",
+    "technique": "property-based testing / structure-aware fuzzing (rapid generators: key-file grammar, wire encodings with hostile length and count prefixes, mutated genuine traffic in ten conversation states, authenticated-but-malicious payloads from the reference peer) + exhaustive fault injection at every read index of the randomness source; oracle: no panic, watchdog, allocation bound, usability probe",
+    "level_text": "public parsers, Receive in every conversation state and every index k at which Conversation.Rand fails are driven with generated hostile inputs; each call is guarded (panic), timed (15 s watchdog), measured (TotalAlloc growth <= 16 MiB + 4096 x input length, worker under ulimit -v) and followed by a probe that the conversation still works",
+    "level_note": "a worker that dies (fatal stack overflow / out of memory) leaves a breadcrumb with its input, which the driver turns into the replay file; CPU-heavy but terminating work (large DSA parameters) is kept out of the domain",
+    "rule": ("parsers: ExtractInstanceTags, ExtractMPIs/MPI/Data/Short/Word/Long/Time/Byte/FixedData, ParsePublicKey/PrivateKey(+Fingerprint/Verify/Serialize), DSAPrivateKey.Import, ImportKeys, sexp.Read/ReadList/ReadString/ReadBigNum/ReadSymbol on grammar-generated key files (valid, truncated, token insertions/deletions, token soup, every prefix) and wire bytes (huge lengths/counts, truncated and bit-flipped keys). "
+             "Receive: states {fresh, query sent, awaiting D-H key, awaiting reveal-sig, awaiting sig, encrypted, encrypted after rotations, finished, mid fragment stream, SMP pending} x policy sets x with/without long-term key x 12 input kinds (raw bytes, garbage behind every ?OTR prefix, truncated/bit-flipped genuine messages, 4-byte fields set to huge values at every offset, nested/illegal fragments, 60 KB first fragment announcing 65535 pieces, query/whitespace/base64 edge cases, 70 KB garbage). "
+             "Authenticated payloads: TLV length lies, truncated TLV header, SMP MPI count 2^32-1, question without NUL, extra-key TLV < 4 bytes, MPI longer than its TLV, thousands of empty TLVs, 65535-byte unknown TLV, lone NUL, SMP with p everywhere. "
+             "Faults: two scenarios (AKE + messages; rotations with an overtaking message, SMP, extra key, End) x both versions x each party x every read index x {error, short read, EOF}. Non-trivial: input recognised as an OTR message / parser got past its first field / the failing read was reached."),
+    "assumptions": COMMON_ASSUME + ["the watchdog (15 s for calls that normally take micro- to milliseconds) is the only wall-clock oracle"],
+    "exhaustive_checks": ["C13faults"],
+    "tests": [
+        {"name": "TestProp_C13_Parsers", "crumb_is_violation": True, "ulimit_v": 8388608, "quick": {"shards": 4, "checks": 1500, "timeout": 500}, "thorough": {"shards": 8, "checks": 40000, "timeout": 3000}},
+        {"name": "TestProp_C13_Receive", "crumb_is_violation": True, "ulimit_v": 8388608, "quick": {"shards": 6, "checks": 150, "timeout": 500}, "thorough": {"shards": 16, "checks": 3000, "timeout": 3000}},
+        {"name": "TestProp_C13_Auth", "crumb_is_violation": True, "ulimit_v": 8388608, "quick": {"shards": 3, "checks": 100, "timeout": 500}, "thorough": {"shards": 8, "checks": 2500, "timeout": 3000}},
+        {"name": "TestProp_C13_Faults", "kind": "plain", "crumb_is_violation": True, "quick": {"shards": 4, "timeout": 500}, "thorough": {"shards": 8, "timeout": 3000}},
+    ],
+}
